@@ -15,6 +15,8 @@ def run_deductive(rep):
     from .C04_more import simple_canaries
     items = [hull_item()] + tradeoff_items("quick")[:2] + [(SimpleConstraints(), simple_canaries()[1:2] + simple_canaries()[3:])]
     verify.verify_many(rep, items)
+    from ..static import provenance
+    provenance.report(rep, only=("postprocessing/",))
     try:
         from . import C05_lemmas
         C05_lemmas.run(rep)
